@@ -364,7 +364,143 @@ def run(fx, rep, tier):
         r3_invalidate_before_destroy(facts, sub)
         r4_trust_conditions(facts, sub)
         r5_in_memory(facts, sub)
+        r6_session(facts, sub)
         if sub is not rep:
             for o in sub.obls:
                 o["key"] += "[rel]"
                 rep.obls.append(o)
+
+
+# ---- R6: session summary of Db::open_inner -------------------------------------------------------------
+from ..absint import core as _core  # noqa: E402
+from ..absint.core import Agg as _Agg, Const as _Const, ok as _ok, err as _err  # noqa: E402
+from ..absint.term import EffectDomain as _EffectDomain, Sym as _Sym, T as _T, IterV as _IterV  # noqa: E402
+
+
+def open_inner_summary(facts, in_memory):
+    body = facts.fn("db::Db::open_inner")
+    cfg_adt = facts.adt("config::Config")
+    meta_adt = facts.adt("config::Meta")
+    mfields = [f["name"] for f in meta_adt["variants"][0]["fields"]]
+    cfields = [f["name"] for f in cfg_adt["variants"][0]["fields"]]
+    meta = _Agg("adt", "config::Meta", 0, "Meta", [_Sym("meta." + f) for f in mfields])
+    config = _Agg("adt", "config::Config", 0, "Config", [meta if f == "meta" else _Sym("config." + f) for f in cfields])
+
+    def oracle(dom, it, name, args, vals, store):
+        if name == "config::open":
+            return [(_ok(config), store), (_err(_Sym("config_error")), dom.with_log(store, ("fail", "config")))]
+        if name == "config::Config::hash_assets":
+            return [(_Sym("hash"), store)]
+        if name == "db::open_index":
+            st = dom.with_log(store, ("open_index",))
+            tup = _Agg("tuple", None, None, None, (_Sym("index_rebuild"), _Sym("disk_index")))
+            return [(_ok(tup), st), (_err(_Sym("open_index_error")), dom.with_log(st, ("fail", "open_index")))]
+        if name == "config::Config::assets":
+            return [(_IterV([_Sym("asset0"), _Sym("asset1")]), store)]
+        if name.endswith("::with_context") or name.endswith(">::context"):
+            return [(vals[0], store)]
+        if name in ("log::max_level",):
+            return [(_Sym("log_level"), store)]
+        if name == "std::cmp::PartialOrd::le" and any(isinstance(v, _Sym) and v.name == "log_level" for v in vals):
+            return [(_Const(False), store)]
+        return None
+
+    effects = {
+        "tantivy::Index::create_in_ram": ("create_in_ram", "value"),
+        "tantivy::tokenizer::TokenizerManager::register": ("register", "unit"),
+        "tantivy::Index::writer": ("writer", "fallible-value"),
+        "tantivy::Index::writer_with_num_threads": ("writer", "fallible-value"),
+        "tantivy::IndexWriter::delete_all_documents": ("delete_all", "fallible-value"),
+        "db::Db::load_bytes": ("load", "fallible"),
+        "tantivy::IndexWriter::commit": ("commit", "fallible-value"),
+        "tantivy::IndexReader::reload": ("reload", "fallible"),
+        "config::Config::write_meta": ("write_meta", "fallible"),
+        "db::load_bytes": ("load_sources", "fallible-value"),
+        "tantivy::IndexReaderBuilder::try_into": ("reader", "fallible-value"),
+    }
+    dom = _EffectDomain(effects, oracle=oracle)
+    it = _core.Interp(facts, dom, budget=300000)
+    outs = it.run(body, [_Const(bool(in_memory))], {})
+    return dom, it, body, outs
+
+
+def r6_session(facts, rep, rule="C15-R6"):
+    rep.rule(rule, "path summary of Db::open_inner for in_memory in {true, false} over a symbolic configuration with two "
+                   "assets: an in-memory session always builds (create_in_ram, register, writer, delete_all, load*, commit, "
+                   "reload) and never touches open_index / write_meta; an on-disk session skips the build only when the stored "
+                   "hash equals this build's hash AND open_index reported no rebuild, and otherwise performs open_index, "
+                   "register, writer, delete_all, load*, commit, reload, write_meta in this order; Ok(db) is returned only "
+                   "at the end of such a sequence")
+    if facts.fn("db::Db::open_inner") is None:
+        rep.ob(rule, "anchor:db::Db::open_inner", False, "anchor not found")
+        return
+    for in_memory in (True, False):
+        try:
+            dom, it, body, outs = open_inner_summary(facts, in_memory)
+        except _core.Undecided as e:
+            rep.ob(rule, "open_inner:in_memory=%s" % in_memory, False, "undecided: %s" % e)
+            continue
+        rep.count("open_inner paths(in_memory=%s)" % in_memory, len(outs))
+        n_ok = 0
+        seen = set()
+        for o in outs:
+            if o.kind != "ret":
+                rep.ob(rule, "panic:in_memory=%s:%s" % (in_memory, o.site), False, "open_inner can end in %s: %s" % (o.kind, o.value), o.site)
+                continue
+            v = o.value
+            if not (isinstance(v, _Agg) and v.path == "std::result::Result" and v.vi == 0):
+                continue
+            log = [e for e in dom.log(o.store)]
+            if any(e[0] == "fail" for e in log):
+                rep.ob(rule, "ok-after-failure:in_memory=%s" % in_memory, False,
+                       "Ok(db) is returned although %s failed" % [e[1] for e in log if e[0] == "fail"], o.site)
+                continue
+            n_ok += 1
+            labels = [e[0] for e in log if e[0] not in ("load_sources", "reader")]
+            core_seq = [l for l in labels if l != "load"]
+            built = "writer" in labels
+            if in_memory:
+                want = ["create_in_ram", "register", "writer", "delete_all", "commit", "reload"]
+                key = "in-memory:%s" % ",".join(core_seq)
+                if key in seen:
+                    continue
+                seen.add(key)
+                rep.ob(rule, key, core_seq == want,
+                       "an in-memory session performs %s%s" % (core_seq, "" if core_seq == want else " (expected %s)" % want),
+                       body.site(), sample={"in_memory": True, "effects": labels})
+            else:
+                if built:
+                    want = ["open_index", "register", "writer", "delete_all", "commit", "reload", "write_meta"]
+                    key = "on-disk-build:%s" % ",".join(core_seq)
+                    if key in seen:
+                        continue
+                    seen.add(key)
+                    rep.ob(rule, key, core_seq == want,
+                           "a rebuilding on-disk session performs %s%s" % (core_seq, "" if core_seq == want else " (expected %s)" % want),
+                           body.site(), sample={"in_memory": False, "effects": labels})
+                else:
+                    # skipped: needs hash equality and index_rebuild == false on the path
+                    pc = dom.pc(o.store)
+                    ir = dom.decide(o.store, _Sym("index_rebuild"))
+                    ne_false = any(isinstance(p, _T) and p.op.startswith("call:") and p.op.endswith("::ne") and b is False
+                                   and any(a == _Sym("hash") or "hash" in repr(a) for a in p.args) for p, b in pc)
+                    okk = core_seq == ["open_index", "register"] and ir is False and ne_false
+                    key = "on-disk-skip:%s:index_rebuild=%s:hash_differs_decided_false=%s" % (",".join(core_seq), ir, ne_false)
+                    if key in seen:
+                        continue
+                    seen.add(key)
+                    rep.ob(rule, key, okk,
+                           "an on-disk session skips the build with effects %s where index_rebuild=%s and the stored hash %s" % (
+                               core_seq, ir, "equals this build's" if ne_false else "was NOT compared equal"),
+                           body.site(), sample={"in_memory": False, "effects": labels})
+            # loads: between delete_all and commit
+            if built:
+                i0 = labels.index("delete_all") if "delete_all" in labels else -1
+                i1 = labels.index("commit") if "commit" in labels else -1
+                pos = [i for i, l in enumerate(labels) if l == "load"]
+                good = all(i0 < i < i1 for i in pos) and i0 >= 0 and i1 >= 0
+                key = "loads-between-delete-and-commit:in_memory=%s" % in_memory
+                if not good or key not in seen:
+                    seen.add(key)
+                    rep.ob(rule, key, good, "asset loads happen between delete_all_documents and commit", body.site())
+        rep.ob(rule, "has-ok-path:in_memory=%s" % in_memory, n_ok >= 1, "%d successful path(s)" % n_ok, body.site())
